@@ -116,6 +116,9 @@ pub(crate) struct Chain {
     pub miner_lock: Script,
     /// if false, headers are not mined (Eaglesong world: "unmined twins")
     pub mine: bool,
+    /// the epoch from which full nodes commit the chain root in the extension (RFC 0044): a block
+    /// carries it iff its PARENT lies in an epoch >= this number (0: every block but genesis)
+    pub mmr_activated_epoch: u64,
     mmr: Option<Mmr>,
 }
 
@@ -136,6 +139,7 @@ impl Clone for Chain {
             ts_step: self.ts_step,
             miner_lock: self.miner_lock.clone(),
             mine: self.mine,
+            mmr_activated_epoch: self.mmr_activated_epoch,
             mmr: None,
         }
     }
@@ -172,6 +176,7 @@ impl Chain {
             ts_step: 10,
             miner_lock: Script::default(),
             mine: true,
+            mmr_activated_epoch: 0,
             mmr: None,
         };
         chain.append(genesis);
@@ -243,6 +248,7 @@ impl Chain {
         let epoch = EpochNumberWithFraction::new(enum_, index, length);
         let parent_root = self.roots[(n - 1) as usize].clone();
         let ext: packed::Bytes = parent_root.calc_mmr_hash().as_bytes().pack();
+        let with_root = self.plan.locate(n - 1).0 >= self.mmr_activated_epoch;
         let mut builder = BlockBuilder::default()
             .parent_hash(parent.hash())
             .number(n.pack())
@@ -250,7 +256,7 @@ impl Chain {
             .compact_target(compact.pack())
             .timestamp((BASE_TS + n * self.ts_step + self.salt % 7).pack())
             .transaction(self.cellbase(n))
-            .extension(Some(ext));
+            .extension(if with_root { Some(ext) } else { None });
         for tx in txs {
             builder = builder.transaction(tx);
         }
